@@ -126,7 +126,7 @@ func main() {
 	c := common.New("C16", "exploration")
 	budget := 150 * time.Second
 	if c.Tier == "thorough" {
-		budget = 20 * time.Minute
+		budget = 9 * time.Minute // the coordinator wants thorough to stay under 10 min wall whatever the load
 	}
 	if v, err := strconv.Atoi(os.Getenv("C16_BUDGET_S")); err == nil && v > 0 {
 		budget = time.Duration(v) * time.Second // for experiments on a loaded machine
